@@ -34,6 +34,7 @@ ASSUMPTIONS = ['programs are valid GNU C11: case values distinct and ranges non-
 
 LIMIT = 400
 M64 = (1 << 64) - 1
+SKIPPED = {'skipped_latitude': 0}   # generator rejections inside the recorded latitude (flushed into corr.distribution)
 
 # ------------------------------------------------------------------------------------------------ types
 
@@ -276,6 +277,7 @@ class CaseAlloc:
             # parse.c compares the bounds as signed long: a range whose long patterns are out of order is rejected
             # ("empty case range") although it is non-empty in an unsigned long controlling type: outside the property
             if as_long(a) > as_long(b):
+                SKIPPED['skipped_latitude'] += 1
                 continue
             self.used.append((a, b))
             return a, b
@@ -656,7 +658,7 @@ def single_differs(ctx, tree, stream):
         return None
     return b.cc_runs[0] != b.gcc_runs[0]
 
-def shrink(ctx, tree, stream, budget=60):
+def shrink(ctx, tree, stream, budget=45):
     cur = tree
     progress = True
     while progress and budget > 0:
@@ -700,6 +702,9 @@ def nest_batch(ctx, corr, tag, nf, mode, maxdepth, fixed=None):
             corr.count('generator-invalid')
             continue
         trees.append(t); streams.append(g.stream(rng.choice([6, 12, 24, 40]))); gens.append(g)
+    if SKIPPED['skipped_latitude']:
+        corr.count('skipped_latitude', SKIPPED['skipped_latitude'])
+        SKIPPED['skipped_latitude'] = 0
     style = rng.randint(0, 1)
     src = unit_source([to_c(t, 0, style) for t in trees])
     b = build_unit(ctx, tag, src, streams)
@@ -910,7 +915,7 @@ def expr_batch(ctx, corr, tag, nf):
         lines = []
         for _ in range(rng.choice([1, 2, 3])):
             e = eg.expr(rng.choice([2, 3, 4]))
-            form = rng.choice(['r', 'if', 'for', 'switch', 'do'])
+            form = rng.choice(['r', 'if', 'for', 'switch', 'do', 'escape'])
             if form == 'r':
                 lines.append(f'  r({e});')
             elif form == 'if':
@@ -919,6 +924,10 @@ def expr_batch(ctx, corr, tag, nf):
                 lines.append(f'  for (m({n.fresh()}); {e}; m({n.fresh()})) {{ m({n.fresh()}); if (c({n.fresh()})) break; }}')
             elif form == 'do':
                 lines.append(f'  do {{ m({n.fresh()}); if (c({n.fresh()})) continue; m({n.fresh()}); }} while ({e});')
+            elif form == 'escape':
+                # control leaving a statement expression: break / continue / goto / return out of `({ ... })`
+                esc = rng.choice(['break', 'continue', f'goto out{len(lines)}', 'return'])
+                lines.append(f'  for (m({n.fresh()}); c({n.fresh()}); m({n.fresh()})) {{ r(({{ if ({e}) {esc}; m({n.fresh()}); c({n.fresh()}); }}) + 1); m({n.fresh()}); }} out{len(lines)}: m({n.fresh()});')
             else:
                 lines.append(f'  switch ({e}) {{ case 0: m({n.fresh()}); case 1: m({n.fresh()}); break; default: m({n.fresh()}); case 7: m({n.fresh()}); }}')
         texts.append('{\n' + '\n'.join(lines) + '\n}\n')
@@ -1014,6 +1023,8 @@ class ScopeProg:
 
     def nid(self):
         self.id += 1
+        if self.id == 4:          # sizeof(int): a typedef of that size would be indistinguishable from an int object
+            self.id += 1
         return self.id
 
     def emit(self, s, ind):
